@@ -196,9 +196,21 @@ func TestVerifC19Exporter(t *testing.T) {
 			if gauge != "" {
 				out.Linef("%s", gauge)
 			}
-			sent, _ := c19Metric(tel, "otelcol_exporter_sent_log_records")
-			failed, _ := c19Metric(tel, "otelcol_exporter_send_failed_log_records")
-			enq, _ := c19Metric(tel, "otelcol_exporter_enqueue_failed_log_records")
+			unit := []string{"log_records", "spans", "metric_points"}[cs.cfg.signal]
+			sent, _ := c19Metric(tel, "otelcol_exporter_sent_"+unit)
+			failed, _ := c19Metric(tel, "otelcol_exporter_send_failed_"+unit)
+			enq, _ := c19Metric(tel, "otelcol_exporter_enqueue_failed_"+unit)
+			// the other signals' counters must stay untouched
+			for i, u := range []string{"log_records", "spans", "metric_points"} {
+				if i == cs.cfg.signal {
+					continue
+				}
+				for _, k := range []string{"sent_", "send_failed_", "enqueue_failed_"} {
+					if v, ok := c19Metric(tel, "otelcol_exporter_"+k+u); ok && v != 0 {
+						out.Linef("viol sig=C19/exporter/foreign-signal-counter-moved metric=%s%s value=%d signal=%s", k, u, v, c03SigName[cs.cfg.signal])
+					}
+				}
+			}
 			out.Linef("obs counters sent=%d failed=%d enq=%d", sent, failed, enq)
 			v := c03Judge(cs, run)
 			if v.nFailed > 0 && v.nRej > 0 {
@@ -208,6 +220,7 @@ func TestVerifC19Exporter(t *testing.T) {
 			out.Linef("stat failed_calls %d", v.nFailed)
 			out.Linef("stat accepted %d", v.nAcc)
 			out.Linef("stat refused %d", v.nRej)
+			out.Linef("stat signal_%s 1", c03SigName[cs.cfg.signal])
 			if strings.Contains(gauge, "expsize=?") {
 				out.Linef("stat gauge_size_not_comparable 1")
 			} else if gauge != "" {
